@@ -1,6 +1,7 @@
 package c05
 
 import (
+	"bytes"
 	"crypto/dsa" //nolint:staticcheck
 	"crypto/ecdsa"
 	"crypto/rsa"
@@ -14,6 +15,7 @@ import (
 	"reflect"
 	"runtime"
 	"sort"
+	"strings"
 	"sync"
 	"testing"
 
@@ -48,6 +50,8 @@ type Case struct {
 			T string `json:"t"`
 		} `json:"mut"`
 		Shape Shape `json:"shape"`
+		// clause ExactBytes: the form in which the data of an object handed over as bytes was SIGNED ("" = plain)
+		DForm string `json:"dform"`
 	} `json:"c"`
 	Expect string `json:"expect"` // verdict of the verification proper (Ctor / Create: of the call)
 	PKey   string `json:"pkey"`   // type of the presented key
@@ -55,7 +59,25 @@ type Case struct {
 	PSig   int    `json:"psig"`   // declared signature code as presented
 	Ctor   bool   `json:"ctor"`   // a verifier can be constructed for the presented key under c.allow
 	E2E    string `json:"e2e"`    // verdict through a constructed verifier
+	PForm  string `json:"pform"`  // the form the data is presented in
+	List   string `json:"list"`   // verdict of loglist3.NewFromSignedJSON (clause ListIsJSON)
+	Stage  string `json:"stage"`  // which of its steps refuses: "verify", "parse", "none"
 	Idx    *int   `json:"idx,omitempty"`
+}
+
+func (c *Case) signedForm() string {
+	if c.C.DForm == "" {
+		return "plain"
+	}
+	return c.C.DForm
+}
+
+// wantList is what loglist3.NewFromSignedJSON returns (cases recorded before the clause existed carry no `list`).
+func (c *Case) wantList() string {
+	if c.List == "" {
+		return c.Expect
+	}
+	return c.List
 }
 
 func hashClass(n int) string {
@@ -90,7 +112,7 @@ func (c *Case) mutClass() string {
 		return "sig=" + sigClass(c.C.Mut.N)
 	case "key-other-type":
 		return "key-other-type=" + family(c.C.Mut.T)
-	case "field", "value", "unser":
+	case "field", "value", "unser", "norm":
 		return c.C.Mut.M + "=" + c.C.Mut.T
 	}
 	return c.C.Mut.M
@@ -98,6 +120,9 @@ func (c *Case) mutClass() string {
 
 // kindTag is the object kind, with the shape of the chain when it is not the standard one.
 func (c *Case) kindTag() string {
+	if f := c.signedForm(); f != "plain" {
+		return fmt.Sprintf("%s{signed:%s}", c.C.Kind, f)
+	}
 	if c.C.Shape.std() {
 		return c.C.Kind
 	}
@@ -228,6 +253,12 @@ func (r *runner) mutate(w *world, c *Case, base *fields, signer *keyPair, val []
 		p.hash = c.C.Mut.N
 	case "sig":
 		p.sig = c.C.Mut.N
+	case "norm":
+		// the same document in another form than the one that was signed (ExactBytes); the signature value untouched
+		p.f, err = base.inForm(c.C.Mut.T)
+		if err == nil && bytes.Equal(p.f.data, base.data) {
+			err = fmt.Errorf("form %s of the document has the bytes of form %s", c.C.Mut.T, base.dform)
+		}
 	case "value":
 		if c.C.Mut.T == "glued" {
 			// a genuine signature over other bytes that end with the canonical ones: what the step before, refused
@@ -291,7 +322,20 @@ func (r *runner) verifyCase(w *world, c *Case, idx int) {
 		e.fields(b)
 		routes = append(routes, route{"embedded", b, e})
 	}
-	for _, rt := range routes {
+	for ri := range routes {
+		rt := &routes[ri]
+		if kind == "Blob" || kind == "LogList" {
+			// the object is signed in the form the case names (ExactBytes)
+			if kind == "Blob" && (c.signedForm() != "plain" || c.C.Mut.M == "norm" || w.rng.Intn(2) == 0) {
+				rt.base.ensureText(w.rng)
+			}
+			b, err := rt.base.inForm(c.signedForm())
+			if err != nil {
+				r.infra("baseline in form %s: %v", c.signedForm(), err)
+				return
+			}
+			rt.base = b
+		}
 		msg, ok := rt.base.msg()
 		if !ok {
 			r.infra("baseline without canonical bytes: %+v", c)
@@ -309,6 +353,10 @@ func (r *runner) verifyCase(w *world, c *Case, idx int) {
 		}
 		if p.key.typ != c.PKey || p.hash != c.PHash || p.sig != c.PSig {
 			r.infra("presented (%s, %d, %d) but the specification presents (%s, %d, %d) in %+v", p.key.typ, p.hash, p.sig, c.PKey, c.PHash, c.PSig, c.C)
+			return
+		}
+		if (kind == "Blob" || kind == "LogList") && c.PForm != "" && p.f.dform != c.PForm {
+			r.infra("data presented in form %q but the specification presents form %q in %+v", p.f.dform, c.PForm, c.C)
 			return
 		}
 		// the property's predicate evaluated with the standard library must agree with the decision table
@@ -330,13 +378,31 @@ func (r *runner) verifyCase(w *world, c *Case, idx int) {
 		case "Blob":
 			r.check("SignatureVerifier.VerifySignature", c, idx, c.Expect, p, func() error { return literal(p.key).VerifySignature(pm, ds) })
 		case "LogList":
-			r.check("loglist3.NewFromSignedJSON", c, idx, c.Expect, p, func() error {
-				ll, err := loglist3.NewFromSignedJSON(p.f.data, p.val, p.key.pub)
+			// clause ListIsJSON: a list is returned iff the signature is valid over exactly the bytes AND they are a JSON
+			// text; bytes that were signed but are not JSON are refused by the parser, not as a failed verification
+			var said string
+			data := append([]byte{}, p.f.data...)
+			got := r.check("loglist3.NewFromSignedJSON", c, idx, c.wantList(), p, func() error {
+				ll, err := loglist3.NewFromSignedJSON(data, p.val, p.key.pub)
 				if err == nil && (ll == nil || len(ll.Operators) != 1) {
 					return fmt.Errorf("accepted, but no log list returned")
 				}
+				if err != nil {
+					said = err.Error()
+				}
 				return err
 			})
+			if !bytes.Equal(data, p.f.data) {
+				r.rep.Violate("purity:args-modified:loglist3.NewFromSignedJSON:LogList:log list data",
+					"loglist3.NewFromSignedJSON changed the bytes it was handed", map[string]any{"case": c, "idx": idx})
+			}
+			if c.Stage == "parse" && got == "error" && strings.Contains(said, "verify signature") {
+				r.rep.Violate(fmt.Sprintf("verify:loglist3.NewFromSignedJSON:%s:%s:%s:want=parse-error:got=verify-error", c.kindTag(), c.C.Key, c.mutClass()),
+					fmt.Sprintf("loglist3.NewFromSignedJSON on a log list signed by a %s key over exactly the %d bytes presented (form %s: not a JSON text): "+
+						"the signature IS valid over these bytes, the code reports a failed verification: %s", c.C.Key, len(p.f.data), c.signedForm(), said),
+					map[string]any{"case": c, "idx": idx, "path": "loglist3.NewFromSignedJSON", "detail": said,
+						"signed_bytes": hex.EncodeToString(p.f.data), "signature_value": hex.EncodeToString(p.val)})
+			}
 		case "STH":
 			sth := p.sth()
 			if sv := r.construct(c, idx, p, p.key); sv != nil {
@@ -485,6 +551,8 @@ func neededKeyTypes(cases []Case) ([]string, map[string]bool) {
 }
 
 const rule = "every case of the decision table of SigVerify.tla (object kind x signer key type x signing hash x single mutation x " +
+	"form of the bytes of a log list / blob as SIGNED x form as PRESENTED: plain, UTF-8 BOM / white space in front, white space / NUL behind, " +
+	"CRLF line ends, letter case, re-serialised JSON (compact, reordered members, escapes) - exact bytes only; " +
 	"opt-in flag; shape of the precertificate chain: issued directly / by a precertificate signing certificate of three kinds x " +
 	"poison or embedded SCT list last / before the authority key identifier / first, signed bytes derived independently from the " +
 	"verbatim DER; unencodable field values refused; constructor table; CreateSignature table) executed with real keys: object encoded and signed with the standard " +
